@@ -78,7 +78,7 @@ def run(v, tier):
             scheds.append(json.loads(json.loads(line)[6:]))
     full = [s for s in scheds if len(s['inputs']) == hmax] + [s for s in scheds if len(s['inputs']) == 1]
     if len(full) > (220 if quick else 3000):
-        full = rng.sample(full, 90 if quick else 3000)
+        full = rng.sample(full, 220 if quick else 3000)
     v.cov['schedules_enumerated_by_tlc'] = len(scheds)
     v.cov['schedules_realised'] = len(full)
 
